@@ -614,8 +614,11 @@ pub fn one_value(t: &mut Tctx, gb: &mut GuardBuf, shape: &Shape, val: &Val, thin
                 reader_case(t, gb, shape, val, &plain, &d, &tail, eio, sched, Fault::None, &[], s, false);
             }
             if !eio && l > 0 {
-                let at = t.rng.below(l as u64) as usize;
-                reader_case(t, gb, shape, val, &plain, &d, &tail, false, sched, Fault::None, &[at, 0], full, true);
+                // Interrupted is transparent wherever it strikes (single-byte pops and block reads alike)
+                let ats: Vec<usize> = if l <= 32 { (0..l).collect() } else { (0..8).map(|_| t.rng.below(l as u64) as usize).collect() };
+                for at in ats {
+                    reader_case(t, gb, shape, val, &plain, &d, &tail, false, sched, Fault::None, &[at], full, true);
+                }
             }
         }
     }
@@ -706,7 +709,8 @@ pub fn run(cfg: &Cfg) -> Report {
                 break;
             }
             // borrow-heavy shapes are over-represented: they exercise the scratch buffer
-            let shape = match i % 4 {
+            let shape = match i % 5 {
+                4 => Shape::Tuple(vec![Shape::Tuple(vec![Shape::U8; 4]), Shape::Bool, Shape::Str, Shape::Tuple(vec![Shape::U8; 3]), Shape::Bytes, Shape::U8]),
                 0 => Shape::Struct("T0", vec![("f0", Shape::Str), ("f1", Shape::F32), ("f2", Shape::Bytes), ("f3", Shape::Char), ("f4", Shape::Seq(Box::new(Shape::Str))), ("f5", Shape::F64)]),
                 1 => Shape::Seq(Box::new(Shape::Tuple(vec![Shape::Str, Shape::Option(Box::new(Shape::Bytes)), Shape::U32]))),
                 _ => {
